@@ -166,7 +166,7 @@ func c20prop(r *simkit.Run) {
 			intervene = cand[rapid.IntRange(0, len(cand)-1).Draw(rt, "which-layer")]
 		}
 	}
-	extract, _ := utils.NewExtractor("request.header.Src")
+	extract, _ := utils.NewExtractor("request.header." + rapid.SampledFrom([]string{"Src", "Src", "src", "SRC", "sRC"}).Draw(rt, "source-header-spelling"))
 	must := func(err error) {
 		if err != nil {
 			rt.Fatalf("building %v: %v", names, err)
@@ -316,8 +316,9 @@ func c20prop(r *simkit.Run) {
 	}
 	reqBody := bytes.Repeat([]byte("q"), rapid.SampledFrom([]int{0, 3, 12}).Draw(rt, "req-body"))
 	method := rapid.SampledFrom([]string{"GET", "POST"}).Draw(rt, "method")
+	bystanderNote := ""
 	ctxt := func() string {
-		return fmt.Sprintf("[stack outermost..innermost %v, intervening layer %d, probe %+v]", reverse(names), intervene, *probe)
+		return fmt.Sprintf("[stack outermost..innermost %v, intervening layer %d, probe %+v]", reverse(names), intervene, *probe) + bystanderNote
 	}
 
 	// ---- drive the chosen layer into its intervening state ----
@@ -390,12 +391,22 @@ func c20prop(r *simkit.Run) {
 	sim.NoteStr("stack", strings.Join(names, ","))
 	sim.Note("intervene", int64(intervene), int64(probe.status), int64(len(reqBody)))
 	sim.NoteStr("probe", fmt.Sprint(probe.headers, probe.chunks, probe.flush, probe.hijack, probe.early, method, writerKind))
-	rec, task, _ := send(probe, "probe-src", reqBody, method)
+	// a limiter that has a reason to refuse one source has none to touch another: by draw the probe comes from a
+	// bystander and must pass through the whole stack untouched, with the first source still at its limit
+	probeSrc, bystander := "probe-src", false
+	if intervene >= 0 && (names[intervene] == "connlimit" || names[intervene] == "ratelimit") && rapid.IntRange(0, 2).Draw(rt, "bystander-source") == 0 {
+		probeSrc, bystander = "other-src", true
+		bystanderNote = " [the probe comes from another source than the one driven to its limit]"
+	}
+	rec, task, _ := send(probe, probeSrc, reqBody, method)
 	failIf(task, "probe request")
 	if !task.Done() {
 		r.Fail("no-return", "the probe request did not return %s", ctxt())
 	}
-	if intervene >= 0 {
+	if bystander {
+		r.Probe("bystander-of-a-limited-source")
+	}
+	if intervene >= 0 && !bystander {
 		if probe.invoked != 0 {
 			r.Fail("handler-invoked-despite-intervention", "layer %s intervened (expected %d) but the wrapped handler was invoked %d times; client status %d %s", names[intervene], wantStatus, probe.invoked, rec.Status, ctxt())
 		}
